@@ -237,6 +237,26 @@ def round_check(ctx, c, outs):
     from orix.vector import Miller
     ph = phase_for(c["k"], c["basis"])
     base = np.asarray(c["ints"], int)
+    if c["fmt"] in ("hkil", "UVTW"):
+        # four-index formats: third index -(h+k) resp. T = -(U+V); may exceed max_index while the others do not
+        b4 = np.column_stack([base[:, 0], base[:, 1], -(base[:, 0] + base[:, 1]), base[:, 2]])
+        m = Miller(phase=ph, **{c["fmt"]: b4.astype(float) * np.asarray(c["factors"], float)[:, None]})
+        with warnings.catch_warnings():
+            warnings.simplefilter("ignore")
+            r = m.round(max_index=c["max_index"])
+        got = getattr(r, c["fmt"])
+        if r.coordinate_format != c["fmt"]:
+            return "round lost the coordinate format"
+        gi = np.rint(got).astype(int)
+        if np.abs(got - gi).max() > 1e-9:
+            return f"round returned non-integer indices {got.tolist()}"
+        for b, g in zip(b4, gi):
+            gg = math.gcd(*[abs(int(x)) for x in b if x != 0] or [1])
+            b0 = b // gg
+            if not np.array_equal(g, b0):
+                return (f"round({c['fmt']} = {b.tolist()} x factor, max_index={c['max_index']}) = {g.tolist()} but the parallel "
+                        f"lattice vector with coprime indices is {b0.tolist()}")
+        return None
     m = Miller(phase=ph, **{c["fmt"]: base.astype(float) * np.asarray(c["factors"], float)[:, None]})
     with warnings.catch_warnings():
         warnings.simplefilter("ignore")
@@ -320,6 +340,20 @@ def generate(ctx):
             ctx.count("round", ("r", k, tuple(map(tuple, ints))))
             yield "round", {"k": k, "basis": b, "fmt": ["hkl", "uvw"][r % 2], "ints": ints,
                             "factors": [float(rng.choice([1.0, 0.5, 2.0, 0.25, 3.0])) for _ in ints], "max_index": 20}
+            if b == "hex":
+                # Miller-Bravais indices whose redundant index is the largest and exceeds max_index
+                mi = int(rng.choice([5, 8, 20]))
+                h4 = []
+                for _ in range(2):
+                    h, kk = int(rng.integers(mi // 2 + 1, mi + 1)), int(rng.integers(mi // 2 + 1, mi + 1))
+                    l = int(rng.integers(0, 3))
+                    sgn = int(rng.choice([-1, 1]))
+                    v4 = [sgn * h, sgn * kk, l]
+                    g = math.gcd(*[abs(x) for x in v4 if x] or [1])
+                    h4.append([x // g for x in v4])
+                ctx.count("round/four_index", ("r4", k, tuple(map(tuple, h4)), mi))
+                yield "round", {"k": k, "basis": b, "fmt": ["hkil", "UVTW"][r % 2], "ints": h4,
+                                "factors": [float(rng.choice([0.37, 0.5, 1.0, 2.0])) for _ in h4], "max_index": mi}
     ctx.sample({"site": "symmetrise", **c})
 
 
